@@ -2,7 +2,9 @@
 
 A *description* (desc) is plain JSON, so that every case can be stored in a replay file:
   float / int / bool / str / None         themselves
-  {"nd": [[x, y], ...]} | {"nd": [x, y]}   numpy array
+  {"nd": [[x, y], ...]} | {"nd": [x, y]}   numpy array (row-major, freshly allocated); with "layout": one of LAYOUTS the
+                                           same logical values in another MEMORY layout (column-major, transposed view,
+                                           strided / reversed view into a larger buffer, big-endian bytes)
   {"set": [a, b, ...]}                     python set, elements inserted in exactly that order
   {"dict": [[k, v], ...]}                  python dict, inserted in exactly that order
   {"enum": "LineMarking", "name": "DASHED"}
@@ -63,7 +65,7 @@ def build(d):
     if isinstance(d, list):
         return [build(v) for v in d]
     if "nd" in d:
-        return np.array(d["nd"], dtype=float)
+        return with_layout(np.array(d["nd"], dtype=float), d.get("layout"))
     if "set" in d:
         s = set()
         for v in d["set"]:
@@ -113,6 +115,118 @@ def build(d):
                     sc.add_objects(o)
         return sc
     return R[cls](**args)
+
+
+# memory layouts of an array with given logical values.  What an array-valued attribute IS for the property are its entries
+# a[i][j]; how numpy lays them out (strides, ownership of the buffer, byte order) is not an attribute value.
+LAYOUTS_2D = ["F", "T", "rows", "cols", "rev", "be"]
+LAYOUTS_1D = ["rows", "rev", "be"]
+_FILL = 7.25  # what the larger buffer holds around a strided view (never a value of the view)
+
+
+def with_layout(a, how):
+    """the array `a` (C-contiguous, owning its data) re-laid in memory; the result has the same shape and entries"""
+    import numpy as np
+    if not how or how == "C" or a.size == 0:
+        return a
+    if how == "F":       # column-major copy (np.asfortranarray; what e.g. np.linalg / scipy hand back)
+        b = np.asfortranarray(a)
+    elif how == "T":     # the usual np.array([xs, ys]).T: a transposed VIEW of a row-major (2, n) buffer
+        b = np.ascontiguousarray(a.T).T
+    elif how == "rows":  # every second row of a larger buffer (non-contiguous)
+        big = np.full((2 * a.shape[0] + 1,) + a.shape[1:], _FILL)
+        big[1::2] = a
+        b = big[1::2]
+    elif how == "cols":  # two inner columns of a wider table (rows not adjacent in memory)
+        big = np.full((a.shape[0], a.shape[1] + 2), _FILL)
+        big[:, 1:-1] = a
+        b = big[:, 1:-1]
+    elif how == "rev":   # negative stride
+        b = np.ascontiguousarray(a[::-1])[::-1]
+    elif how == "be":    # big-endian doubles (arrays read from files written on another platform)
+        b = a.astype(">f8")
+    else:
+        raise ValueError(how)
+    assert b.shape == a.shape and np.array_equal(a, b)
+    return b
+
+
+def _walk_nd(d, path, out):
+    if isinstance(d, list):
+        for i, e in enumerate(d):
+            _walk_nd(e, path + [i], out)
+    elif isinstance(d, dict):
+        if "nd" in d:
+            out.append(path)
+        elif "set" in d:
+            _walk_nd(d["set"], path + ["set"], out)
+        elif "dict" in d:
+            for i, kv in enumerate(d["dict"]):
+                _walk_nd(kv[1], path + ["dict", i, 1], out)
+        elif "cls" in d:
+            for k, v in d["args"].items():
+                _walk_nd(v, path + ["args", k], out)
+
+
+def nd_paths(d):
+    """paths of all array descriptions inside a description"""
+    out = []
+    _walk_nd(d, [], out)
+    return out
+
+
+def _at(d, path):
+    for k in path:
+        d = d[k]
+    return d
+
+
+def relayout(r, d, p_each=0.7):
+    """same description with the memory layout of its arrays changed (each with probability p_each, at least one): identical
+    attribute values.  Returns (description, [layouts used]) or None when the description holds no non-empty array."""
+    paths = [p for p in nd_paths(d) if _at(d, p)["nd"]]
+    if not paths:
+        return None
+    new = copy.deepcopy(d)
+    forced = r.randrange(len(paths))
+    used = []
+    for i, p in enumerate(paths):
+        if i != forced and r.random() >= p_each:
+            continue
+        node = _at(new, p)
+        two = isinstance(node["nd"][0], list)
+        cur = node.get("layout", "C")
+        how = r.choice([l for l in (LAYOUTS_2D if two else LAYOUTS_1D) if l != cur])
+        node["layout"] = how
+        used.append(("2d:" if two else "1d:") + how)
+    return new, used
+
+
+def layout_alias(r, d):
+    """two descriptions (dp, dq) that differ in ONE (n, 2) array, n >= 2, such that the differing arrays hold DIFFERENT
+    points but exactly the same bytes in memory: one row-major, the other a transposed view (column-major).  E.g.
+    [[0,1],[2,3]] row-major and [[0,2],[1,3]] column-major are both the buffer 0,1,2,3.  Returns (dp, dq, path) or None
+    (no such array, or the two point lists differ by less than 1e-6 everywhere)."""
+    import numpy as np
+    paths = [p for p in nd_paths(d) if _at(d, p)["nd"] and isinstance(_at(d, p)["nd"][0], list) and len(_at(d, p)["nd"]) >= 2]
+    r.shuffle(paths)
+    for p in paths:
+        a = np.array(_at(d, p)["nd"], dtype=float)
+        n, m = a.shape
+        dp, dq = copy.deepcopy(d), copy.deepcopy(d)
+        if r.random() < 0.5:   # dp keeps a (row-major); dq: the points a.reshape(m, n).T laid out column-major = the buffer of a
+            b = a.reshape(m, n).T
+            _at(dp, p).pop("layout", None)
+            _at(dq, p).update({"nd": b.tolist(), "layout": "T"})
+        else:                  # dp holds a column-major; dq: the points a.T.reshape(n, m) row-major = that buffer
+            b = a.T.reshape(n, m)
+            _at(dp, p)["layout"] = r.choice(["T", "F"])
+            _at(dq, p).update({"nd": b.tolist()})
+            _at(dq, p).pop("layout", None)
+        if np.max(np.abs(a - b)) < 1e-6:
+            continue
+        return dp, dq, p
+    return None
 
 
 ALT_CLASSES = ["Scenario", "LaneletNetwork", "PlanningProblemSet", "CustomState", "SignalState"] + \
